@@ -1,5 +1,7 @@
 import FitModel.Decode
 import FitProofs.Refine
+import FitProofs.Frame
+import FitProofs.Chain
 /-!
   C11 — truncation and read faults never yield silent success.
 -/
@@ -36,7 +38,7 @@ theorem chained_reports_errors (P : Profile) (o : Opts) (fuel i : Nat) (acc : Li
     (r : Reader) (c : ErrClass)
     (hp : (decode P o .full g r).1.panic = false)
     (he : (decode P o .full g r).1.err = some c)
-    (hb : ¬ ((decode P o .full g r).1.st.cleanEOF = true ∧ i ≠ 0)) :
+    (hb : ¬ ((decode P o .full g r).1.cleanEOF = true ∧ i ≠ 0)) :
     (decodeChained P o (fuel + 1) i acc g r).err = some c := by
   simp only [decodeChained, hp, he, Bool.false_eq_true, ↓reduceIte]
   simp [hb]
@@ -45,10 +47,111 @@ theorem chained_clean_end (P : Profile) (o : Opts) (fuel i : Nat) (acc : List Fi
     (r : Reader) (c : ErrClass)
     (hp : (decode P o .full g r).1.panic = false)
     (he : (decode P o .full g r).1.err = some c)
-    (hb : (decode P o .full g r).1.st.cleanEOF = true ∧ i ≠ 0) :
+    (hb : (decode P o .full g r).1.cleanEOF = true ∧ i ≠ 0) :
     (decodeChained P o (fuel + 1) i acc g r).err = none ∧
     (decodeChained P o (fuel + 1) i acc g r).files = acc := by
   simp only [decodeChained, hp, he, Bool.false_eq_true, ↓reduceIte]
   simp [hb]
+
+/-- **A stream shorter than the frame it declares is never a success**, for `Decode` and
+    `CheckIntegrity`, whether the stream ends with EOF or with a reader error: truncation
+    cannot be silent. -/
+theorem short_input_never_succeeds (P : Profile) (o : Opts) (m : Mode) (hm : m = .full ∨ m = .crcOnly)
+    (g : Globals) (data : Bytes) (stop : Stop) (hshort : data.length < frameLen data) :
+    ¬ (decodeSpec P o m g data stop).1.success := by
+  intro h
+  unfold decodeSpec at h
+  simp only at h
+  have hs : (runSpec (decodeProg P m g) { rest := data, stop := stop, taken := 0 }).1.success := by
+    have := finalize_err o (runSpec (decodeProg P m g) { rest := data, stop := stop, taken := 0 }).1
+    unfold Outcome.success at h ⊢
+    rw [this.1, this.2.1] at h
+    exact h
+  have h1 := (prog_consumes_exactly P m hm g _ hs).1
+  have h2 := (runSpec_conserve (decodeProg P m g) { rest := data, stop := stop, taken := 0 }).1
+  simp only [Nat.zero_add] at h1 h2
+  omega
+
+theorem frameLen_take (full : Bytes) (k : Nat) (hk : 8 ≤ k) : frameLen (full.take k) = frameLen full := by
+  unfold frameLen
+  have e1 : (full.take k).headD 0 = full.headD 0 := by
+    cases full with
+    | nil => simp
+    | cons x xs =>
+      cases k with
+      | zero => omega
+      | succ k => rfl
+  have e2 : ((full.take k).drop 4).take 4 = (full.drop 4).take 4 := by
+    rw [List.drop_take, List.take_take]
+    congr 1
+    omega
+  rw [e1, e2]
+
+/-- **Every cut is an error.** Cutting a stream anywhere before the end of the frame it
+    declares (`k < frameLen full`) makes `Decode` and `CheckIntegrity` fail, at every one of the
+    cut offsets and for both ways of ending (EOF, reader error). -/
+theorem cut_is_error (P : Profile) (o : Opts) (m : Mode) (hm : m = .full ∨ m = .crcOnly)
+    (g : Globals) (full : Bytes) (k : Nat) (stop : Stop) (hk : k < frameLen full) :
+    ¬ (decodeSpec P o m g (full.take k) stop).1.success := by
+  intro h
+  unfold decodeSpec at h
+  simp only at h
+  have hs : (runSpec (decodeProg P m g) { rest := full.take k, stop := stop, taken := 0 }).1.success := by
+    have := finalize_err o (runSpec (decodeProg P m g) { rest := full.take k, stop := stop, taken := 0 }).1
+    unfold Outcome.success at h ⊢
+    rw [this.1, this.2.1] at h
+    exact h
+  obtain ⟨h1, h14, _⟩ := prog_consumes_exactly P m hm g _ hs
+  have h2 := (runSpec_conserve (decodeProg P m g) { rest := full.take k, stop := stop, taken := 0 }).1
+  simp only [Nat.zero_add] at h1 h2 h14
+  have hlen : (full.take k).length ≤ k := by rw [List.length_take]; omega
+  by_cases h8 : 8 ≤ k
+  · rw [frameLen_take full k h8] at h1
+    omega
+  · omega
+
+/-- The same for the real, buffered run under any read schedule (by refinement). -/
+theorem cut_is_error_buffered (P : Profile) (o : Opts) (m : Mode) (hm : m = .full ∨ m = .crcOnly)
+    (g : Globals) (r : Reader) (full : Bytes) (k : Nat) (hd : r.data = full.take k) (hk : k < frameLen full) :
+    ¬ (decode P o m g r).1.success := by
+  intro h
+  have e : (decode P o m g r).1 = (decodeSpec P o m g r.data r.stop).1 := by
+    simp only [decode, decodeSpec]
+    have := (run_refines (decodeProg P m g) r 0).1
+    rw [this]
+    have := runSpec_pos_irrelevant (decodeProg P m g)
+      { rest := r.data, stop := r.stop, taken := r.pos, frameEnd := 0 }
+      { rest := r.data, stop := r.stop, taken := 0 } rfl rfl
+    rw [this]
+  rw [e, hd] at h
+  exact cut_is_error P o m hm g full k r.stop hk h
+
+/-- **A chain cut inside a file is reported.** If what is left of the stream is shorter than the
+    frame it declares — and is not the clean end (no bytes left and EOF) — `DecodeChained` returns
+    an error (or panics); it never returns silently. In particular an empty stream is an error for
+    the first file, and a reader error is never swallowed, even exactly on a file boundary. -/
+theorem chained_cut_is_error (P : Profile) (o : Opts) (fuel i : Nat) (acc : List FileSt) (g : Globals)
+    (d : Bytes) (stop : Stop) (hshort : d.length < frameLen d)
+    (hne : d ≠ [] ∨ stop = .fault ∨ i = 0) :
+    (decodeChainedSpec P o (fuel + 1) i acc g d stop).err.isSome = true ∨
+    (decodeChainedSpec P o (fuel + 1) i acc g d stop).panic = true := by
+  rw [decodeChainedSpec]
+  by_cases hp : (decodeSpec P o .full g d stop).1.panic = true
+  · simp [hp]
+  · simp only [hp, Bool.false_eq_true, ↓reduceIte]
+    cases he : (decodeSpec P o .full g d stop).1.err with
+    | none =>
+      exfalso
+      exact spec_short_not_success P o .full (Or.inl rfl) g d stop hshort ⟨he, by simpa using hp⟩
+    | some c =>
+      simp only
+      by_cases hc : (decodeSpec P o .full g d stop).1.cleanEOF = true ∧ i ≠ 0
+      · exfalso
+        obtain ⟨h1, h2⟩ := spec_cleanEOF P o .full g d stop hc.1
+        rcases hne with h | h | h
+        · exact h h1
+        · rw [h2] at h; cases h
+        · exact hc.2 h
+      · simp [hc]
 
 end Fit.Props.C11
